@@ -170,6 +170,35 @@ def gen_modify(rng, maxlen=12, fuzz_max=3):
     return {"mf": mk_file(target), "patches": [mk_patch(hunks, 0, d, fuzz)], "expect": (a, b)}
 
 
+def gen_shifted_repetitive(rng):
+    """three to six hunks on a repetitive file that has been shifted since the diff was made: every hunk applies at
+    an offset, and because blocks repeat a hunk matches at several places - which one is taken depends on the offset
+    carried over from the previous hunk"""
+    block = rng.choice([[1, 2], [1, 2, 3], [1, 2, 1, 3]])
+    a = []
+    while len(a) < rng.randint(18, 40):
+        a += block
+    b = list(a)
+    nh = rng.randint(3, 6)
+    step = max(len(a) // nh, 4)
+    for i in range(nh):
+        pos = min(i * step + rng.randint(0, 1), len(b) - 1)
+        b[pos] = 7 + i % 3
+    ctx = rng.choice([1, 1, 2])
+    hunks = diff_hunks(a, b, ctx)
+    target = list(a)
+    d = 0
+    k = rng.randint(1, 5)
+    if rng.random() < 0.7:
+        target[0:0] = (block * 3)[:k]
+    else:
+        del target[0:k]
+    if rng.random() < 0.3 and len(target) > 10:
+        m = rng.randrange(5, len(target) - 2)
+        target[m:m] = (block * 2)[:rng.randint(1, 3)]
+    return {"mf": mk_file(target), "patches": [mk_patch(hunks, 0, d, rng.choice([0, 0, 1, 2]))], "expect": (a, b)}
+
+
 def gen_random_hunks(rng, maxlen=8):
     """Arbitrary well-formed hunks (contexts equal on both sides) on a highly repetitive file."""
     alphabet = [1, 2]
